@@ -327,6 +327,19 @@ def spec_body(m):
     return b""
 
 
+def overflows(case):
+    """does the case carry a MAC, routing table or port-info longer than 255?"""
+    h = case.get("h")
+    if h:
+        for a in (h["dadr"], h["sadr"]):
+            if a is not None and a[0] == "rs" and len(a[2]) // 2 > 255:
+                return True
+    m = case.get("m")
+    if m and m[0] in (0x06, 0x07):
+        return len(m[1]) > 255 or any(len(i) // 2 > 255 for _d, _p, i in m[1])
+    return False
+
+
 class Refuse(Exception):
     pass
 
@@ -430,6 +443,11 @@ def oracle(ctx, case, a):
         return
     if op in ("dec", "mdec", "bdec") and a.get("r") == "err" and k != "decoding":
         ctx.fail("wrong-error", case, "decoder failed with %s, not DecodingError" % k, op=op)
+        return
+    if op in ("enc", "menc", "benc") and a.get("r") == "ok" and overflows(case):
+        # a count/length that does not fit its one-octet field must be refused, not cut down
+        ctx.fail("silently-truncated", case, "a list / address longer than its length octet can say was "
+                 "encoded instead of refused: %s…" % a["hex"][:40], op=op)
         return
     if op == "enc":
         h = case["h"]
@@ -758,7 +776,7 @@ def gen_mutated(ctx, rng, frames):
             b.insert(rng.randrange(len(b) + 1), rng.getrandbits(8))
         elif kind == 4:
             del b[rng.randrange(len(b))]
-        elif kind == 5:
+        elif kind == 5 and len(b) > 1:
             b[1] = rng.getrandbits(8)           # another control octet over the same octets
         else:
             b = bytearray([1]) + bytearray(rng.getrandbits(8) for _ in range(rng.choice([1, 2, 3, 5, 9, 20])))
@@ -924,7 +942,7 @@ def search(ctx):
         for c in enc + menc:
             r = impl(c)
             oracle(ctx, c, r)
-            if r.get("r") == "ok" and "hex" in r:
+            if r.get("r") == "ok" and c["op"] in ("enc", "menc"):
                 frames.append(bytes.fromhex(r["hex"]))
         for c in gen_dec(ctx, rng) + gen_prefixes(ctx, rng, enc) + gen_mdec_typed(ctx, rng) + gen_mutated(ctx, rng, frames):
             r = impl(c)
